@@ -354,6 +354,34 @@ func genSpecs(gs genSlot, thorough bool) []genSpec {
 				add(fmt.Sprintf("delta +field %d", e.Num), [][]genFieldSet{{base}, {base, {e.Slot, 0}}}, thorough)
 				add(fmt.Sprintf("delta -field %d", e.Num), [][]genFieldSet{{base, {e.Slot, 0}}, {base}, {base, {e.Slot, 1 % 2}}}, thorough)
 			}
+			// the same variable-length field (string / array) set in three messages with different lengths
+			for _, e := range usable {
+				if e.Base != fitmodel.String && !e.Array {
+					continue
+				}
+				ok := true
+				for vi := 0; vi < 3; vi++ {
+					probe := fit.VerifNewMesg(fit.MesgNum(gs.Mesg))
+					if !genValue(probe.Field(e.Sindex), e, vi, 0) {
+						ok = false
+					}
+				}
+				if !ok {
+					continue
+				}
+				order := [][]int{{2, 0, 1}, {0, 2, 1}}
+				if e.Array {
+					order = [][]int{{1, 0, 2}, {0, 1, 2}}
+				}
+				for _, o := range order {
+					add(fmt.Sprintf("field %d with lengths in order %v", e.Num, o), [][]genFieldSet{{{e.Slot, o[0]}}, {{e.Slot, o[1]}}, {{e.Slot, o[2]}}}, thorough)
+				}
+			}
+			// three messages, each with a different single field (sliding window over the fields)
+			for i := 0; i+2 < len(usable); i += 3 {
+				add(fmt.Sprintf("three messages with one field each (%d,%d,%d)", usable[i].Num, usable[i+1].Num, usable[i+2].Num),
+					[][]genFieldSet{{{usable[i].Slot, 0}}, {{usable[i+1].Slot, 1 % 2}}, {{usable[i+2].Slot, 0}}}, thorough)
+			}
 			if len(usable) > 1 {
 				other := genFieldSet{usable[len(usable)-1].Slot, 0}
 				add("delta first field", [][]genFieldSet{{other}, {other, base}}, true)
